@@ -694,7 +694,7 @@ pub fn gen_res(r: &mut Rng) -> ResHead {
         2 => b"2x0".to_vec(),
         3 => b"000".to_vec(),
         4 => b"999".to_vec(),
-        _ => format!("{}", r.pick(&[200u16, 204, 301, 302, 304, 400, 404, 500, 503, 100])).into_bytes(),
+        _ => format!("{}", r.pick(&[200u16, 204, 301, 302, 304, 400, 404, 500, 503, 100, 100, 101, 103, 199])).into_bytes(),
     };
     let reason = match r.below(6) {
         0 => vec![],
@@ -712,7 +712,16 @@ pub fn gen_res(r: &mut Rng) -> ResHead {
 }
 
 pub fn body(r: &mut Rng) -> Vec<u8> {
-    match r.below(12) {
+    match r.below(16) {
+        // a body that is itself a complete message (pipelined / interim + final response, tunnelled request)
+        12 => b"HTTP/1.1 500 Internal Server Error\r\nServer: evil/6.6\r\nContent-Length: 0\r\n\r\n".to_vec(),
+        13 => b"GET /second HTTP/1.1\r\nHost: b\r\nUser-Agent: evil/6.6\r\n\r\n".to_vec(),
+        14 => {
+            let mut d = render_res(&gen_small_res(r));
+            d.extend_from_slice(b"tail");
+            d
+        }
+        15 => render_req(&gen_small_req(r)),
         0 | 1 => vec![],
         2 => b"hello world".to_vec(),
         3 => b"line1\r\nline2\r\n\r\nline4".to_vec(),
@@ -843,11 +852,16 @@ pub fn run(ctx: &mut Ctx) {
     {
         let hq = simple_req("GET", 1, vec![fld("Host", " ", "example.com", ""), fld("User-Agent", " ", "curl/8.4.0", ""), fld("Accept", " ", "*/*", "")]);
         let hs = ResHead { ver: 1, status: b"200".to_vec(), reason: b"OK".to_vec(), fields: vec![fld("Server", " ", "nginx", ""), fld("Content-Type", " ", "text/html", ""), fld("Content-Length", " ", "11", "")] };
+        // interim (1xx) response heads: what follows them on the wire is not part of the head either
+        let h100 = ResHead { ver: 1, status: b"100".to_vec(), reason: b"Continue".to_vec(), fields: vec![] };
+        let h103 = ResHead { ver: 1, status: b"103".to_vec(), reason: b"Early Hints".to_vec(), fields: vec![fld("Link", " ", "</style.css>; rel=preload", "")] };
         let mut br = Rng::new(5);
-        for _ in 0..48 {
+        for _ in 0..96 {
             let b = body(&mut br);
             emit_hreq(ctx, &env, &hq, &b, true);
             emit_hres(ctx, &env, &hs, &b, true);
+            emit_hres(ctx, &env, &h100, &b, true);
+            emit_hres(ctx, &env, &h103, &b, true);
         }
     }
     // 2f. every language of the table alone; q boundary pairs
